@@ -62,10 +62,14 @@ def handleP (valS progS scope hdrS : String) : String :=
     let out := if d.repanic then "repanic:same" else "returned"
     let status := if d.handled then 500 else if p.written then startedStatus progS else 0
     let red := sortStrings (d.redactedNames.map hexOfStr)
-    let route := if !d.logged then "-" else if let some nm := specialScope scope then toHex (ascii nm) else if scope == "routets" then toHex (ascii "/r/{id}/") else if scope == "routehost" then toHex (ascii "{sub}.com/r/{id}") else toHex (ascii "/r/{id}")
-    let params := if !d.logged || (specialScope scope).isSome then "-"
+    -- what a record names: the matched route (or the special handler), the parameters of the match that reached the
+    -- handler, the request line
+    let routeName := if let some nm := specialScope scope then toHex (ascii nm) else if scope == "routets" then toHex (ascii "/r/{id}/") else if scope == "routehost" then toHex (ascii "{sub}.com/r/{id}") else toHex (ascii "/r/{id}")
+    let paramStr := if (specialScope scope).isSome then "-"
       else if scope == "routehost" then toHex (ascii "sub") ++ "=" ++ toHex (ascii "example") ++ "+" ++ toHex (ascii "id") ++ "=" ++ toHex (ascii "42")
       else toHex (ascii "id") ++ "=" ++ toHex (ascii "42")
+    let route := if !d.logged then "-" else routeName
+    let params := if !d.logged then "-" else paramStr
     let m := "out=" ++ out ++ ",logged=" ++ (if d.logged then "1" else "0") ++ ",status=" ++ toString status ++
       ",touched=" ++ (if d.handled then "1" else "0") ++ ",redacted=" ++ (if red.isEmpty then "-" else join red "+") ++
       ",route=" ++ route ++ ",params=" ++ params ++ ",reqline=" ++ (if d.logged then "1" else "0") ++ "," ++ followOk true true
@@ -73,7 +77,8 @@ def handleP (valS progS scope hdrS : String) : String :=
     let (rep, fresh) := Spec.outcome v p
     let sstatus := if fresh then 500 else if p != .nothing then startedStatus progS else 0
     let s := "out=" ++ (if rep then "repanic:same" else "returned") ++ ",status=" ++ toString sstatus ++
-      ",touched=" ++ (if fresh then "1" else "0") ++ ",leak=0," ++ followOk true true
+      ",touched=" ++ (if fresh then "1" else "0") ++ ",leak=0,rec=" ++
+      (if rep then "-" else routeName ++ "/" ++ paramStr ++ "/1") ++ "," ++ followOk true true
     let nSens := (names.filter Spec.isSensitive).length
     let tags := [valTag v, "p-" ++ progS, "s-" ++ scope] ++ (if connIsBroken v then ["conn-broken"] else []) ++
       (if nSens > 0 && d.logged then ["redacts"] else []) ++
@@ -93,6 +98,7 @@ def handleT (kind nopsS pos : String) : String :=
     | "view" => some (managed false e)
     | "handle" => some (singleOp 0)
     | "update" => some (singleOp 2)
+    | "musthandle" | "musthandle-dup" => some (singleOp 5)
     | _ => none
   match o with
   | none => "M=bad-case"
